@@ -1,7 +1,7 @@
 //@ inject src/utils/mod2_sys.rs
 //@ fn utils::mod2_sys::Modulo2Equation::add
 //@ fn utils::mod2_sys::Modulo2Equation::add_ptr
-//@ harness mod2_add_len2 props=C19,C12 bounded="variable lists of length <= 2, variables < 4, W = u8 (unwind 6)" timeout=900
+//@ harness mod2_add_len2 props=C12 bounded="variable lists of length <= 2, variables < 4, W = u8 (unwind 6)" timeout=900
 //@ assume the error path (anyhow::bail! -> format!) is stubbed out of the harness by comparing only Ok / Err
 #[cfg(kani)]
 mod verif_kani_mod2 {
